@@ -1129,7 +1129,10 @@ ws_read_cb(void *arg)
 		// For message mode, also check to make sure that the overall
 		// length of the message has not exceeded our recvmax.
 		// (Protect against an infinite stream of small messages!)
-		if ((!ws->isstream) && (ws->recvmax > 0)) {
+		// (Control frames are not part of the message; they are
+		// limited to 125 bytes when they are processed.)
+		if ((!ws->isstream) && (ws->recvmax > 0) &&
+		    ((frame->op & 0x08u) == 0)) {
 			size_t    totlen = frame->len;
 			ws_frame *fr2;
 			NNI_LIST_FOREACH (&ws->rxq, fr2) {
